@@ -50,7 +50,7 @@ RECURSIVE AcceptAllFrom(_, _, _, _)
 AcceptAllFrom(B, L, P(_), any) == LET A == Accept(B, L, P) IN IF A.ok THEN AcceptAllFrom(B, A.L, P, TRUE) ELSE [ok |-> any, L |-> A.L]
 AcceptAll(B, L, P(_)) == AcceptAllFrom(B, L, P, FALSE)
 
-IsWs(r) == r \in {32, 9, 10, 13, 11}
+IsLexWs(r) == r \in {32, 9, 10, 13, 11}
 IsDigit(r) == r >= 48 /\ r <= 57
 IsNonZeroDigit(r) == r >= 49 /\ r <= 57
 IsFlag(r) == r \in {105, 109, 115}
@@ -114,7 +114,7 @@ ScanNumber(B, L) ==
 ScanNameLoop(B, L, first) ==
     LET N == NextRune(B, L) IN
     IF N.r = EOFR THEN N.L
-    ELSE IF IsWs(N.r) THEN Backup(N.L)
+    ELSE IF IsLexWs(N.r) THEN Backup(N.L)
     ELSE IF (Stale \/ ~first) /\ (HasSym1(N.r) \/ HasSym2(N.r)) THEN Backup(N.L)
     ELSE ScanNameLoop(B, N.L, FALSE)
 ScanName(B, L) ==
@@ -125,7 +125,7 @@ ScanName(B, L) ==
 
 \* lexer.next(allowRegex)
 LexToken(B, L0, allowRegex) ==
-    LET L == Ignore(AcceptAll(B, L0, IsWs).L)
+    LET L == Ignore(AcceptAll(B, L0, IsLexWs).L)
         N == NextRune(B, L)
         ch == N.r
     IN  IF ch = EOFR THEN [tok |-> [ty |-> "eof", s |-> N.L.cur, e |-> N.L.cur], L |-> N.L]
